@@ -6,7 +6,7 @@ CFG = dict(
                'Tied to Handler::execute_program on every run: _internal contents (marks, users, api_keys, ACL rows), the session binding and leaked rows are observed.',
     level_note='Trusted: as C27. Reading is observed as a response row containing the password-hash marker of _internal:users.',
     technique='Coq proof (invariant over the per-line execution loop) + differential correspondence with Handler::execute_program',
-    bin='c29', n_quick=450, n_thorough=6000,
+    bin='c29', n_quick=450, n_thorough=2250,
     corr_name='Model/HandlerAuth.v (handle) vs Handler::execute_program',
     rule='as C27 with 60% of all KG names being _internal (in .kg use/create/drop, .kg acl list/grant/revoke, as explicit target KG, as session binding, after comments, '
          'in the middle of multi-line programs) and queries on users; non-trivial = non-admin request that names _internal / users or is bound to it; distinct by identity, role map and program text',
